@@ -61,7 +61,7 @@ class KNXDateTime(DPTComplexData):
     def from_dict(cls, data: Mapping[str, Any]) -> KNXDateTime:
         """Init from a dictionary."""
         _data = {**data}
-        if "day_of_week" in data:
+        if data.get("day_of_week") is not None:
             _data["day_of_week"] = KNXDayOfWeek.parse(data["day_of_week"])
         try:
             return cls(**_data)
